@@ -55,7 +55,7 @@ class ccube:
         # Each independent interaction has the same shape.
         if interacting_shape is None:
             interacting_shape = tuple(
-                max([coords[0] for coords in d] + [d.common]) + 1 for d in dims
+                int(max([coords[0] for coords in d] + [d.common])) + 1 for d in dims
             )
         self.interacting_shape = interacting_shape
         self.shape = self.scaffold_shape + self.interacting_shape
